@@ -84,6 +84,42 @@ claim("C09", "proof",
       "Trusted: rustc THIR construction; std contracts of <[T]>::iter, Iterator::cloned, Iterator::find.",
       "constant-table extraction + declaration agreement + value-flow forms of the lookups (static, exhaustive)", "DESIGN.md §4 C09")
 
+claim("C13", "other",
+      "Rate is a four-field record (axioms by composing the extracted new/accessor bodies); reciprocal swaps the pairs and is an involution by rewriting; Rate*q (generic body), and "
+      "q*Rate / q/Rate of every quantity type are compared as rational functions over the uninterpreted like-quantity ratio (unit slots exactly); q / r equals q * reciprocal(r) after substitution.",
+      VF_NOTE + " The like-quantity ratio itself is C03/C10; as_qty is C09.", "value-flow summaries + rational-function normal form (static)", "DESIGN.md §4 C13")
+claim("C14", "other",
+      "ConversionTable::convert (one generic body, hence any table): identity branch returns the value unchanged, otherwise find_map over the table in order with the row predicate "
+      "`from == qty.unit() && to == to_unit` (truth table) and the affine map amount*factor+offset into the requested unit. The temperature table is folded from its constant in both "
+      "back-ends: 6 ordered pairs each once, 12 constants vs exact rational formulas (exact / amount-type precision), inverse pairs and compositions consistent.",
+      "Trusted: std contracts of <[T]>::iter, Iterator::find_map, bool::then; oracle/temperature.json. Rounding of amount*factor+offset (2 operations) not bounded.",
+      "value-flow summary of the generic converter + constant-table oracle comparison (static)", "DESIGN.md §4 C14")
+claim("C15", "other",
+      "PARTLY decided (structure only): every generated Display impl forwards to Quantity::fmt / Unit::fmt with the caller's formatter; Quantity::fmt writes exactly once through "
+      "pad_integral(amount >= 0, \"\", format!(\"{|amount|} {unit}\")) with the precision forwarded iff given (templates decoded from the lowered format_args byte code), bare amount for unit-less "
+      "values; Unit::fmt is the symbol under string formatting; Rate writes 'term / per' omitting a per-multiple of one (6 cases). NOT decided: digit generation, rounding at a precision, "
+      "width/fill/alignment and '+' handling inside std/fpdec formatting, and the parse-back clause.",
+      "Trusted: std and fpdec formatting code; the format_args! byte-code layout of the pinned toolchain (decoder fails closed).",
+      "data-flow into the formatting calls + template decoding (static); behavioural clauses not applicable", "DESIGN.md §4 C15")
+claim("C17", "other",
+      "PARTLY decided (structure only): in serde configurations (decimal+serde, f64+serde) every generated unit enum and quantity struct has exactly one derived Serialize and Deserialize impl, "
+      "no #[serde(..)] attribute, enums serialise every variant under its own identifier (table extracted from the derive expansion; Deserialize VARIANTS agree), structs write and read every "
+      "field; without the feature no impl exists; Cargo feature wiring. NOT decided: bit-exact JSON text round trip of f64 / Decimal (serde_json, ryu, fpdec).",
+      "Trusted: serde derive semantics for attribute-free items; serde_json/ryu/fpdec conversions.",
+      "impl-table + derive-expansion table extraction (static); round-trip clause not applicable", "DESIGN.md §4 C17")
+claim("C18", "other",
+      "PARTLY decided: complete inventory of panic-capable sites (Assert terminators, diverging calls, unwrap/expect/index vocabulary, unvetted std callees) in the MIR of every library body in "
+      "both back-ends = the three documented mixed-unit panics + one Option::unwrap in _fit; the documented panics are unreachable from reference-unit types (resolved call graph); the unwrap is "
+      "discharged for every result type and every cell from the extracted tables. NOT decided: absence of fpdec overflow for in-range magnitudes (needs numeric range analysis).",
+      "Trusted: MIR construction makes every language-level panic explicit; f64 arithmetic never panics; allow-listed std functions; fpdec arithmetic is the only other panic source in the decimal configuration.",
+      "MIR panic-site inventory + call-graph reachability + table-based discharge (static)", "DESIGN.md §4 C18")
+claim("C19", "proof",
+      "Finite lattice: rustc's type-check verdict on 30 (quick) / all 128 (thorough) configurations; independent of sampling: feature closure ⊇ module-use graph per feature, module gates, "
+      "no std:: in catalogue modules, all cfg(feature) sites classified, and every body shared by a small and the full configuration has an identical fingerprint (additivity). "
+      "thorough adds per-feature configurations: quantity and derivation operators exposed.",
+      "Trusted: cargo feature resolution, rustc type checking. `Results unchanged` is decided as body identity of shared items, not by evaluating an operation corpus.",
+      "compiler verdict over the configuration lattice + feature/module graph + cross-configuration body identity (static)", "DESIGN.md §4 C19")
+
 NOT_YET = "check not built yet (see DESIGN.md for the planned static analysis)"
 
 m = {
